@@ -9,10 +9,11 @@ namespace Yow.Store
 
 /-- What each store API operation is specified to do (operation ids as in harness/lib/axo.py):
     0 storeSession, 1 deleteSession, 2 deleteAllSessions, 3 saveIdentity, 4 storePreKey, 5 removePreKey,
-    6 setAsSent, 7 storeSignedPreKey, 8 removeSignedPreKey, 9 storeSenderKey, 10 own identity at creation. -/
+    6 setAsSent, 7 storeSignedPreKey, 8 removeSignedPreKey, 9 storeSenderKey, 10 own identity at creation.
+    removePreKey does not delete the row: it retires it (the record becomes the tombstone, the id stays). -/
 def kindOf : Nat → Option Kind
   | 0 => some (.replace 0) | 1 => some (.remove 0) | 2 => some (.remove 0)
-  | 3 => some (.replace 1) | 4 => some (.insertNew 2) | 5 => some (.remove 2)
+  | 3 => some (.replace 1) | 4 => some (.insertNew 2) | 5 => some (.retire 2)
   | 6 => some (.markSent 2) | 7 => some (.insertNew 3) | 8 => some (.remove 3)
   | 9 => some (.replace 4) | 10 => some (.insertNew 1)
   | _ => none
@@ -88,6 +89,20 @@ theorem C13_refines_map_remove (e : Nat × Nat × List Sk) (he : e ∈ Yow.Gen.s
   obtain ⟨kd, hkd, hal⟩ := C13_ops_have_allowed_shape e he
   rw [hk] at hkd; cases hkd
   have h := remove_effect t k v e.2.2 hal db hdb ht hu
+  exact ⟨h.1, h.2.2.1, h.2.2.2.1, h.2.2.2.2⟩
+
+/-- … retiring a one-time prekey: the row stays (so that its id is never handed out again), its key
+    material is replaced by the tombstone `v`, flag and all other records untouched (a missing key stays
+    missing) … -/
+theorem C13_refines_map_retire (e : Nat × Nat × List Sk) (he : e ∈ Yow.Gen.storeOps) (t : Nat)
+    (hk : kindOf e.1 = some (.retire t)) (k v : Nat) (db : Db) (hdb : db.inTx = false)
+    (ht : t < db.committed.length) (hu : UniqueKeys db.committed) :
+    (run [(k, v)] db e.2.2).inTx = false ∧ UniqueKeys (run [(k, v)] db e.2.2).committed ∧
+    lookup (run [(k, v)] db e.2.2).committed t k = (lookup db.committed t k).map (fun old => (v, old.2)) ∧
+    (∀ t' k', (t', k') ≠ (t, k) → lookup (run [(k, v)] db e.2.2).committed t' k' = lookup db.committed t' k') := by
+  obtain ⟨kd, hkd, hal⟩ := C13_ops_have_allowed_shape e he
+  rw [hk] at hkd; cases hkd
+  have h := retire_effect t k v e.2.2 hal db hdb ht hu
   exact ⟨h.1, h.2.2.1, h.2.2.2.1, h.2.2.2.2⟩
 
 /-- … and the uploaded flag of one-time prekeys: values untouched, flag set, nothing else changes. -/
